@@ -84,14 +84,18 @@ class Writer:
         return {"num": "id%d" % self.n, "guid": "g-%04x-ref" % (self.n * 7919), "plain": "r%d" % self.n}[self.id_style]
 
     def type_attrs(self, v):
-        decl = ""
-        if self.local:
-            decl = ' xmlns:%s="%s" xmlns:x="%s" xmlns:xsd="%s" xmlns:soapenc="%s"' % (self.xsi, XSI, TNS, XSD, ENC)
+        def decl(*prefixes):
+            # local mode: an element declares exactly the prefixes its own attributes use
+            if not self.local:
+                return ""
+            uris = {self.xsi: XSI, "x": TNS, "xsd": XSD, "soapenc": ENC}
+            return "".join(' xmlns:%s="%s"' % (p, uris[p]) for p in dict.fromkeys(prefixes))
         if v[0] == "struct":
-            return decl + ' %s:type="x:%s"' % (self.xsi, v[1])
+            return decl(self.xsi, "x") + ' %s:type="x:%s"' % (self.xsi, v[1])
         if v[0] == "array":
-            return decl + ' %s:type="soapenc:Array" soapenc:arrayType="%s[%d]"' % (self.xsi, v[1], len(v[2]))
-        return decl + ' %s:type="xsd:%s"' % (self.xsi, "string" if v[0] == "str" else "int")
+            return decl(self.xsi, "soapenc", v[1].split(":")[0]) + \
+                ' %s:type="soapenc:Array" soapenc:arrayType="%s[%d]"' % (self.xsi, v[1], len(v[2]))
+        return decl(self.xsi, "xsd") + ' %s:type="xsd:%s"' % (self.xsi, "string" if v[0] == "str" else "int")
 
     def content(self, v):
         if v[0] == "struct":
@@ -111,6 +115,8 @@ class Writer:
                 rid = self.new_id()
                 self.by_content[key] = rid
                 root = ' soapenc:root="0"' if self.marked else ""
+                if root and self.local and v[0] != "array":
+                    root = ' xmlns:soapenc="%s"%s' % (ENC, root)
                 self.multirefs.append('<multiRef id="%s"%s%s>%s</multiRef>' % (rid, root, self.type_attrs(v), self.content(v)))
             self.outlined += 1
             return '<%s href="#%s"/>' % (name, rid)
